@@ -201,3 +201,221 @@ def check_C05(tier):
              "kind, KindsAgree, SubstituteWellFormed; (ii) AxCut machine in named mode on the input vs positional mode on the "
              "real linearize output. Inputs: shrink_prog outputs of generated Fun programs and directly generated non-linear "
              "AxCut programs.")
+
+
+# ---------------------------------------------------------------------------------------------- C01 (native)
+def check_C01(tier):
+    import native, equiv, collections, time
+    t0 = time.time()
+    build_harness()
+    work = fresh_dir(WORK, "C01")
+    k = T(tier, 1, 15)
+    plan = [dict(n=90 * k, mode="seq", pressure=False, budget=(8, 30), wide=True, max_main_params=5, tag="plain"),
+            dict(n=50 * k, mode="seq", pressure=True, twins=True, budget=(8, 24), tag="press")]
+    art, index, args, meta = stages.build(work, plan, emit="fun,x86")
+    nat = native.Native(work)
+    jobs, skipped = [], collections.Counter()
+    for n, e in index.items():
+        so = [s for s in e["stages"] if s["stage"] == "x86"]
+        if not so:
+            skipped["rejected-or-earlier-stage-failed"] += 1
+            continue
+        if so[0]["outcome"] != "ok":
+            skipped["capacity" if any(m in so[0]["msg"] for m in lockstep.CAPACITY_MSGS) else "backend-panic"] += 1
+            continue
+        # a third, large-magnitude argument tuple (arguments must reach main unchanged)
+        al = list(args[n])
+        if e["nargs"]:
+            r = rng_for("C01" + n)
+            al.append([r.choice([2147483648, -2147483649, 1311768467463790320, -9223372036854775807, 4294967296]) for _ in range(e["nargs"])])
+        args[n] = al
+        jobs.append((n, open(os.path.join(art, n + ".x86.asm")).read(), e["nargs"], al))
+    res = nat.build_and_run(jobs)
+    progs, pidx, cases, viols, stats = [], {}, [], [], collections.Counter(skipped)
+    for n, text, nargs, al in jobs:
+        r = res[n]
+        if not r["assembled"] or not r.get("linked"):
+            stats["not-assembled"] += 1
+            diag = " | ".join(sorted({re_sub_line(l) for l in r["diag"].splitlines() if "Error" in l or "error" in l}))[:160]
+            rp = save_replay("C01", "asm-" + n, {"program": n, "source": meta[n].get("src"), "diag": r["diag"], "asm": text})
+            viols.append({"signature": "C01:asm:" + lockstep.normalize_why(diag), "what": "%s: emitted assembly rejected: %s" % (n, diag), "replay": rp})
+            continue
+        progs.append({"name": n, "prog": equiv.load_stage(art, n, "fun")})
+        pidx[n] = len(progs)
+        for a in al:
+            key = ",".join(map(str, a))
+            cases.append({"name": "%s@%s" % (n, key), "p": pidx[n], "args": [equiv.limbs(x) for x in a], "argv": [str(x) for x in a],
+                          "native": {"ran": r["runs"][key]["ran"], "stdout": r["runs"][key]["stdout"], "status": r["runs"][key]["status"]}})
+    wd = os.path.join(work, "tlc")
+    os.makedirs(wd, exist_ok=True)
+    paths = {}
+    for nm, obj in (("progs", progs), ("cases", cases), ("cfg", {"maxsteps": T(tier, 8000, 30000)})):
+        paths[nm] = os.path.join(wd, nm + ".json")
+        json.dump(obj, open(paths[nm], "w"))
+    r = tlc_batch("Source", "Source.cfg", wd, {"SCCV_PROGS": paths["progs"], "SCCV_CASES": paths["cases"], "SCCV_CFG": paths["cfg"]},
+                  len(cases), timeout=T(tier, 900, 7000))
+    byname = {x["case"]: x for x in r["results"]}
+    natof = {c["name"]: c["native"] for c in cases}
+    samples = []
+    for x in r["results"]:
+        stats[x["status"] + (":" + x["tag"] if x["tag"] and x["status"] != "fail" else "")] += 1
+        if x["status"] == "tool":
+            raise ToolError(x["why"])
+        if x["status"] != "fail":
+            continue
+        n, _, av = x["case"].partition("@")
+        tw = meta.get(n, {}).get("twin")
+        twres = byname.get("%s@%s" % (tw, av)) if tw else None
+        cap = twres is not None and twres["status"] in ("agree", "excluded")
+        sig = "C01:capture:%s" % x["tag"] if cap else "C01:%s:%s" % (x["tag"], lockstep.normalize_why(x["why"]))
+        rp = save_replay("C01", x["case"], {"case": x["case"], "source": meta.get(n, {}).get("src"), "argv": av, "predicted_stdout": x["expected"],
+                                            "predicted_status": x["expstatus"], "native": natof[x["case"]]})
+        viols.append({"signature": sig, "replay": rp, "what": "%s: %s (predicted %r/%d, native %r/%s)" % (
+            x["case"], x["why"], x["expected"][:60], x["expstatus"], natof[x["case"]]["stdout"][:60], natof[x["case"]]["status"])})
+    for x in sorted([y for y in r["results"] if y["status"] == "agree"], key=lambda y: -y["steps"])[:3]:
+        n = x["case"].partition("@")[0]
+        samples.append({"case": x["case"], "source_steps": x["steps"], "stdout": x["expected"][:200], "exit_status": x["expstatus"],
+                        "source": (meta.get(n, {}).get("src") or "")[:500]})
+    log("[C01] %s" % dict(stats))
+    new = triage("C01", viols)
+    write_evidence("C01", tier, "translation_validation",
+                   {"programs": len(progs), "disagreements_checked": len(cases), "samples": samples or [{"note": "no agreeing case"}],
+                    "states": r["distinct"], "transitions": r["states"], "outcomes": dict(stats),
+                    "rule": "generated well-typed Fun programs (effects in sequenced positions) + repository examples; real pipeline to "
+                            "x86-64 text, GNU as, the repository's C driver and io.c, a real process; stdout bytes and exit status "
+                            "compared inside TLC with RenderOut/ExitStatus of spec/Runtime.tla applied to the run of spec/FunMachine.tla"},
+                   time.time() - t0, len(viols),
+                   assumptions=["NASM->GAS transliteration (lib/native.py) only touches syntax", "spec/FunMachine.tla is the source semantics (validated on the repository's expected outputs)"])
+    return 1 if new else 0
+
+
+def re_sub_line(l):
+    import re
+    return re.sub(r"^[^:]*:\d+:\s*", "", l).strip()
+
+
+# ---------------------------------------------------------------------------------------------- C20 (runtime contract)
+I64_VALUES = sorted(set(
+    [0, 1, -1, 9, 10, -9, -10, 99, 100, 255, 256, -255, -256, (1 << 31) - 1, 1 << 31, -(1 << 31), -(1 << 31) - 1, (1 << 32) - 1, 1 << 32,
+     -(1 << 32), (1 << 63) - 1, -(1 << 63), -(1 << 63) + 1, 1234567890123456789, -1234567890123456789]
+    + [10 ** k for k in range(19)] + [-(10 ** k) for k in range(19)] + [10 ** k - 1 for k in range(1, 19)]
+    + [1 << k for k in range(0, 63, 7)] + [-(1 << k) for k in range(0, 64, 7)]))
+
+
+def check_C20(tier):
+    import native, equiv, collections, time, subprocess
+    t0 = time.time()
+    build_harness()
+    work = fresh_dir(WORK, "C20")
+    r = rng_for("C20")
+    vals = list(I64_VALUES) + [r.randrange(-(1 << 63), 1 << 63) for _ in range(T(tier, 40, 2000))]
+    nat = native.Native(work)
+    viols, stats = [], collections.Counter()
+    # ---- (c) io.c stand-alone: one process per value and primitive
+    tdir = os.path.join(work, "io")
+    os.makedirs(tdir, exist_ok=True)
+    open(os.path.join(tdir, "t.c"), "w").write(
+        '#include <stdint.h>\n#include <stdlib.h>\n#include <string.h>\nvoid print_i64(int64_t) asm("print_i64");\n'
+        'void println_i64(int64_t) asm("println_i64");\n'
+        'int main(int c, char **v) { for (int i = 2; i < c; i++) { int64_t x = (int64_t)strtoull(v[i], 0, 10); '
+        'if (v[1][0] == \'l\') println_i64(x); else print_i64(x); write(1, "|", 1); } return 0; }\n')
+    r0 = subprocess.run(["gcc", "-w", "-o", os.path.join(tdir, "t"), os.path.join(tdir, "t.c"), nat.ioobj], stdout=subprocess.PIPE, stderr=subprocess.STDOUT, text=True)
+    if r0.returncode != 0:
+        raise ToolError("cannot build the io.c test driver: " + r0.stdout)
+    obs = []
+    for callee, flag in (("print_i64", "p"), ("println_i64", "l")):
+        for i in range(0, len(vals), 50):
+            chunk = vals[i:i + 50]
+            pr = subprocess.run([os.path.join(tdir, "t"), flag] + [str(v % (1 << 64)) for v in chunk], stdout=subprocess.PIPE, timeout=20)
+            parts = pr.stdout.decode("latin-1").split("|")[:-1]
+            if len(parts) != len(chunk):
+                parts = (parts + ["<missing>"] * len(chunk))[:len(chunk)]
+            for v, o in zip(chunk, parts):
+                obs.append({"name": "%s(%d)" % (callee, v), "kind": "print", "callee": callee, "w": equiv.limbs(v), "stdout": o, "status": 0})
+    # ---- (a) native one-liners: arguments reach main unchanged and in order, exit status = low 8 bits
+    progs = []
+    for n in range(0, 6):
+        ps = ", ".join("a%d: i64" % i for i in range(n))
+        body = "".join("%s(a%d); " % ("println_i64" if i % 2 == 0 else "print_i64", i) for i in range(n))
+        ret = "a%d" % (n - 1) if n else "300"
+        progs.append(("arity%d" % n, "def main(%s): i64 { %s%s }\n" % (ps, body, ret)))
+    lst = [{"name": nm, "kind": "fun", "src": src} for nm, src in progs]
+    lp = os.path.join(work, "list.json")
+    json.dump(lst, open(lp, "w"))
+    art = os.path.join(work, "art")
+    sccv("pipeline", lp, art, "fun,x86")
+    index = {c["name"]: c for c in json.load(open(os.path.join(art, "index.json")))}
+    jobs, argsof = [], {}
+    for nm, src in progs:
+        n = index[nm]["nargs"]
+        tuples = [[r.choice(vals) for _ in range(n)] for _ in range(T(tier, 12, 200))] if n else [[]]
+        tuples.append([vals[(7 * i) % len(vals)] for i in range(n)])
+        argsof[nm] = tuples
+        jobs.append((nm, open(os.path.join(art, nm + ".x86.asm")).read(), n, tuples))
+    res = nat.build_and_run(jobs)
+    sprogs, cases = [], []
+    for nm, text, n, tuples in jobs:
+        rr = res[nm]
+        if not rr["assembled"] or not rr.get("linked"):
+            raise ToolError("cannot build %s natively: %s" % (nm, rr["diag"]))
+        sprogs.append({"name": nm, "prog": equiv.load_stage(art, nm, "fun")})
+        for a in tuples:
+            key = ",".join(map(str, a))
+            cases.append({"name": "%s@%s" % (nm, key), "p": len(sprogs), "args": [equiv.limbs(x) for x in a], "argv": [str(x) for x in a],
+                          "native": {"ran": rr["runs"][key]["ran"], "stdout": rr["runs"][key]["stdout"], "status": rr["runs"][key]["status"]}})
+        # ---- (b) wrong number of arguments
+        for wrong in sorted({n + 1, max(0, n - 1)} - {n}):
+            b = os.path.join(nat.dir, nm + ".bin")
+            pr = subprocess.run([b] + ["1"] * wrong, stdout=subprocess.PIPE, timeout=10)
+            so = pr.stdout.decode("latin-1")
+            trailing_nul = so.endswith("\x00")
+            obs.append({"name": "%s with %d arguments" % (nm, wrong), "kind": "arity", "callee": "", "w": [0, 0, 0, 0],
+                        "stdout": so.rstrip("\x00"), "status": pr.returncode})
+            if trailing_nul:
+                stats["arity message carries a trailing NUL byte (tolerated: the message itself is reported)"] += 1
+    wd = os.path.join(work, "tlc")
+    os.makedirs(wd, exist_ok=True)
+    p = {}
+    for nm, obj in (("progs", sprogs), ("cases", cases), ("cfg", {"maxsteps": 5000}), ("obs", obs)):
+        p[nm] = os.path.join(wd, nm + ".json")
+        json.dump(obj, open(p[nm], "w"))
+    r1 = tlc_batch("Source", "Source.cfg", wd, {"SCCV_PROGS": p["progs"], "SCCV_CASES": p["cases"], "SCCV_CFG": p["cfg"]}, len(cases), timeout=1500)
+    r2 = tlc_batch("RuntimeCheck", "RuntimeCheck.cfg", os.path.join(wd, "rt"), {"SCCV_CASES": p["obs"]}, len(obs), timeout=3000)
+    natof = {c["name"]: c["native"] for c in cases}
+    for x in r1["results"]:
+        stats["native:" + x["status"]] += 1
+        if x["status"] == "tool":
+            raise ToolError(x["why"])
+        if x["status"] == "fail":
+            rp = save_replay("C20", x["case"], {"case": x["case"], "predicted_stdout": x["expected"], "predicted_status": x["expstatus"], "native": natof[x["case"]]})
+            viols.append({"signature": "C20:native:%s" % x["tag"], "replay": rp,
+                          "what": "%s: %s (predicted %r/%d, native %r/%s)" % (x["case"], x["why"], x["expected"][:50], x["expstatus"], natof[x["case"]]["stdout"][:50], natof[x["case"]]["status"])})
+    for x in r2["results"]:
+        stats["runtime:" + x["status"]] += 1
+        if x["status"] == "fail":
+            rp = save_replay("C20", x["case"], x)
+            kind = "arity" if "arguments" in x["case"] else ("print-min" if "(-9223372036854775808)" in x["case"] else "print")
+            viols.append({"signature": "C20:%s" % kind, "replay": rp, "what": "%s: %s" % (x["case"], x["why"][:160])})
+    # ---- (d) AArch64 / x86-64 argument shuffle on the ISA machines
+    art2, index2, args2 = lockstep.build_batch(os.path.join(work, "shuffle"), [], with_examples=False, directed=GL.fam_arity(7))
+    lsviol, shuffle_states = [], 0
+    for be in ("a64", "x86"):
+        rr, cs, sk = lockstep.run_backend("C20", art2, index2, args2, be, os.path.join(work, "shuffle"), 4000, 32, 900)
+        shuffle_states += rr["distinct"]
+        for x in rr["results"]:
+            stats["shuffle-%s:%s" % (be, x["status"])] += 1
+            if x["status"] == "fail" and x["tag"] != "tool":
+                rp = save_replay("C20", "shuffle-%s-%s" % (be, x["case"]), x)
+                viols.append({"signature": "C20:shuffle:%s:%s" % (be, x["tag"]), "replay": rp, "what": "%s on %s: %s" % (x["case"], be, x["why"])})
+    log("[C20] %s" % dict(stats))
+    new = triage("C20", viols)
+    write_evidence("C20", tier, "model_checking",
+                   {"states": r1["distinct"] + r2["distinct"] + shuffle_states, "transitions": r1["states"] + r2["states"],
+                    "traces_validated_against_impl": len(cases) + len(obs),
+                    "samples": [{"observation": o["name"], "stdout": o["stdout"]} for o in obs[:3]] + [{"case": c["name"], "native": c["native"]} for c in cases[-2:]],
+                    "values": len(vals), "outcomes": dict(stats),
+                    "rule": "io.c print primitives called stand-alone on boundary/power/random i64 values; one-line programs with 0..5 "
+                            "parameters run natively with random boundary tuples; wrong argument counts; argument shuffle of "
+                            "into_routine on the A64 (0..7) and X86 (0..5) machines; all judged by spec/Runtime.tla in TLC"},
+                   time.time() - t0, len(viols), assumptions=["gcc and glibc of this sandbox", "spec/Word64.tla ToDecimal (validated against Rust by the Word64 conformance test)"])
+    return 1 if new else 0
